@@ -20,6 +20,7 @@ ALL_TEMPLATES = [
     templates.inline_program,
     templates.projection_program,
     templates.normalize_program,
+    templates.dependency_program,
 ]
 
 
@@ -60,7 +61,7 @@ common.install(
     corpus_traits=corpus_traits,
     template=any_template,
     mix=(4, 9, 7),
-    budgets=(2400, 60000),
+    budgets=(4000, 80000),
     decl="free",
     level_text="Exploration: end-to-end differential testing of optimize over generated programs, declarations, trait subsets and instances against clingo, projected on the output predicates.",
 )
